@@ -1776,7 +1776,11 @@ class Printer:
             d = self.decl_text(s)
             if o.hoist and s.id is not None or (o.hoist and s.id is None):
                 # hoisted: declaration becomes an assignment (the variable lives at file scope)
-                if s.init is not None:
+                if s.init is not None and s.init.k == 'init':
+                    # an array with an initialiser list cannot be assigned as a whole in C: element by element
+                    for i_, x_ in enumerate(s.init.args):
+                        L.append('%s%s%s[%d] = %s;' % (ind, o.prefix, s.name, i_, P(x_, o)))
+                elif s.init is not None:
                     L.append('%s%s%s = %s;' % (ind, o.prefix, s.name, P(s.init, o)))
                     self.exc_check(s.init, ind)
                 else:
